@@ -627,6 +627,18 @@ func runC08(c *fw.Ctx) {
 		{alpha[0], bigPut("b", 'A', 100_000), alpha[2]},
 		{alpha[0], bigPut("b", 'A', 70_000), bigPut("b", 'N', 40_000)},
 		{alpha[0], alpha[2], bigPut("b", 'A', 33_000), {Kind: "DropRowRange", Table: tblT, Prefix: []byte("b")}},
+		// shapes of the registry the alphabet does not reach: the LAST family of a table dropped (the persisted
+		// definition has no family while rows may still hold its cells); two tables in ONE instance directory, a schema
+		// change of the one that sorts first / last killed while its scratch file exists
+		{{Kind: "CreateTable", Parent: parentI, TableID: "s", Fams: map[string]*bt.GC{"g": nil}},
+			{Kind: "MutateRow", Table: parentI + "/tables/s", Key: []byte("a"), Muts: []bt.Mut{mset("g", "c", 1000, "1")}},
+			{Kind: "MutateRow", Table: parentI + "/tables/s", Key: []byte("ab"), Muts: []bt.Mut{mset("g", "c", 2000, "2")}},
+			{Kind: "ModifyFamilies", Table: parentI + "/tables/s", Mods: []bt.Mod{{ID: "g", Op: "drop"}}}},
+		{alpha[0], {Kind: "CreateTable", Parent: parentI, TableID: "u", Fams: map[string]*bt.GC{"f": nil}},
+			{Kind: "MutateRow", Table: parentI + "/tables/u", Key: []byte("a"), Muts: []bt.Mut{mset("f", "c", 1000, "u")}}, alpha[2], alpha[9]},
+		{alpha[0], {Kind: "CreateTable", Parent: parentI, TableID: "u", Fams: map[string]*bt.GC{"f": nil}}, alpha[2],
+			{Kind: "ModifyFamilies", Table: parentI + "/tables/u", Mods: []bt.Mod{{ID: "h", Op: "create"}}}},
+		{alpha[0], alpha[2], {Kind: "CreateTable", Parent: parentI, TableID: "a", Fams: map[string]*bt.GC{"f": nil}}},
 	} {
 		item++
 		if !c.Mine(item) {
@@ -658,12 +670,12 @@ func runC08(c *fw.Ctx) {
 				continue
 			}
 			c.State(fw.Hash("large-row", fmt.Sprint(bi, k)))
-			c.Outcome("kill-in:large-row")
+			c.Outcome(fmt.Sprintf("kill-in:extra-program-%d", bi))
 			if cl != "" {
 				if len(dtl) > 1500 {
 					dtl = dtl[:1500] + "…"
 				}
-				c.Violate("C08:"+cl+":large-row:"+c08Tag(cs), dtl+fmt.Sprintf("\n  program %d of the large-row pass (rows of 33-100 KB), kill point %d", bi, k), cs, func() string {
+				c.Violate("C08:"+cl+":extra-program:"+c08Tag(cs), dtl+fmt.Sprintf("\n  extra program %d (large rows / registry shapes), kill point %d", bi, k), cs, func() string {
 					cl2, _ := runC08Case(c, cs, stepwise)
 					if cl2 == "" {
 						return ""
